@@ -5,7 +5,7 @@ from contracts import c_combine as C
 
 META = {
     "level": "proof",
-    "text": "Two regions of combine_DL.main are verified from their AST (regions located by structure, all table sizes, ExtReal arithmetic): R1 — for the "
+    "text": "Regions of combine_DL.main are verified from their AST (regions located by structure, all table sizes, ExtReal arithmetic): R1 — for the "
             "unique function of iteration i, DL_min[i] is NaN iff no variant has a non-NaN description length; otherwise DL_min, function string, parameters and "
             "the three terms of row i are those of ONE variant of that unique attaining the minimum of nll+codelen+aifeyn over its non-NaN variants, and no other "
             "row is touched; R2 — the NaN mask, the sort and the re-indexing: exactly the uniques with a non-NaN DL get a row (a bijection), rows are in "
@@ -13,7 +13,10 @@ META = {
             "probabilities: with SUP(k) :<=> an earlier row has exactly the same likelihood and E(k) = 0 if SUP(k) or DL_k - DL_0 = +inf else exp(-(DL_k - DL_0)), for a "
             "finite best description length Prel(k) = E(k) / sum E, finite, non-negative, zero for suppressed rows, sum E >= 1 and sum Prel = 1 (ghost functions carry the "
             "witness of `in` through the loop; sums by the induction-proved lemma library). The case of a non-finite best DL is outside R3's precondition (known finding "
-            "c06:prel:top-dl-minus-inf). The per-rank file concatenation and the file round trip between the regions are decided by the bounded stand-in only (synthetic "
+            "c06:prel:top-dl-minus-inf). R0 — the per-rank table written by every rank has the columns DL | parameters | -logL | codelen | aifeyn and rank 0 reads the joined table "
+            "back with the same layout; R4 — iteration i of the final loop appends exactly one row: rank i followed by function, DL, Prel, -logL, codelen, aifeyn and the parameter "
+            "columns of the same sorted position (consecutive ranks from 0); prologue — row i of a rank stands for unique function data_start + i. The concatenation of the "
+            "per-rank files (cat | sort -V, A-shell; structural obligation in C14) and the text round trip of the numbers are decided by the bounded stand-in only (synthetic "
             "tables with NaN/inf/ties, 1-4 ranks, through the real combine stage), which is not counted as proved.",
     "note": "A-float; numpy models for boolean-mask/fancy indexing, nanmin/nanargmin (first minimum among non-NaN), vstack/transpose, sorted(key) (stable permutation), "
             "linspace(0,n-1,n).astype(int) = identity are assumed (A-ext) and exercised by the bounded runs; counting lemmas for masks assumed. File round trip between R1 and R2 "
@@ -26,9 +29,17 @@ CHECKER = "./bin/check C06 (pyvc on esr/fitting/combine_DL.py::main regions R1, 
 def check(run):
     D.lemma_library(run)
     failed_all = []
-    for mk in (C.r1_contract, C.r2_contract, C.r3_contract):
+    for mk, tag in ((C.r1_contract, None), (C.r2_contract, None), (C.r3_contract, None)):
         st, failed, eng = D.verify_function(run, "fitting/combine_DL.py", "main", mk, timeout_ms=8000,
-                                            note="regions of main(): R1 (loop body over unique functions), R2 (mask/sort/re-index), R3 (duplicate suppression, exp, normalisation); the rest of main is not under contract")
+                                            note="regions of main(): R1 (loop body over unique functions), R2 (mask/sort/re-index), R3 (duplicate suppression, exp, normalisation), "
+                                                 "R0 (layout of the per-rank table, writer and reader), R4 (rows of the final table), prologue (slice of get_functions)")
+        failed_all += failed
+    from contracts import c_stages
+    for mk, tag, note in ((C.r0_writer_contract, "R0 writer", "region: the statement that builds out_arr"),
+                          (C.r0_reader_contract, "R0 reader", "region: rank 0 reads the joined table back into the five per-unique arrays"),
+                          (C.r4_contract, "R4", "region: body of the loop that writes final_<n>.dat; csv rows recorded as ghost state"),
+                          (c_stages.combine_prologue_contract, "prologue", "region: from the get_functions call to xarr_proc (see C14)")):
+        st, failed, eng = D.verify_function(run, "fitting/combine_DL.py", "main", mk, timeout_ms=8000, tag=tag, note=note)
         failed_all += failed
     can = D.canary(run, "fitting/combine_DL.py", "main", C.r1_contract)
     if can is False:
